@@ -13,7 +13,7 @@ pub const RULE: &str = "valid documents (generated spec or RichSpec; known and u
 4-byte floats, 1-8 byte ids; payloads 0..300 bytes) × EVERY cut position 0..=len (exhaustive per document) × one of {slice source, 1-byte reads, random chunking} × capacity {default, 16, 17, 33, 64, len±1}. \
 Oracle from the reference encoder's layout (not from the reader): non-End items = exactly the elements complete in the prefix; items emitted form a prefix of the uncut document's sequence that stops before the \
 incomplete element; at a tag boundary: Ends of all open masters innermost first, then None; otherwise exactly one UnexpectedEOF with tag_start / tag_id / tag_size / partial_data as the statement fixes them; never a corruption error. \
-Stage cuts_beyond_4GiB: the synthesized stream of C03 cut inside group 1 030 (beyond 4 GiB) in the payload, in the group's header, between a payload element's id and size, in the stamp's payload and at the group boundary: same expectation from the generator's arithmetic. Stage big_payload_cuts: a RichSpec document with one Blob of 65-145 KB (1 in 12: 1-3 MiB, cut around header end + 1 MiB too), the same oracle at ~27 sampled cuts (element ends, ±2 around multiples of 64 KiB inside the payload and in the stream, random), slice or chunked source, capacity {default, 16, 64, 4096, 70 000}. Each (document, cut) is one evaluation; non-trivial: cut strictly inside an element; distinct by (document hash, cut).";
+Stage cuts_beyond_4GiB: the synthesized stream of C03 cut inside group 1 030 (beyond 4 GiB) in the payload, in the group's header, between a payload element's id and size, in the stamp's payload and at the group boundary: same expectation from the generator's arithmetic. Stage big_payload_cuts: a RichSpec document with one Blob of 65-145 KB (1 in 12: 1-3 MiB, cut around header end + 1 MiB too; 1 in 40: 5-6 MiB preceded by a payload 1-1.5 MiB bigger), the same oracle at ~27 sampled cuts (element ends, ±2 around multiples of 64 KiB inside the payload and in the stream, random), slice or chunked source, capacity {default, 16, 64, 4096, 70 000}. Each (document, cut) is one evaluation; non-trivial: cut strictly inside an element; distinct by (document hash, cut).";
 
 pub const ASSUMPTIONS: &[&str] = &[
     "Ends between the last complete tag and the incomplete one may or may not be delivered before the error (the statement fixes tags and the error, not those Ends)",
@@ -313,8 +313,16 @@ fn stage_doc(i: &Input, c: &mut Case) -> Result<(), String> {
 fn stage_big(i: &Input, c: &mut Case) -> Result<(), String> {
     let mut t = Tape::new(i.tape());
     crate::dynspec::set_current(crate::gen::rich());
-    let big_len = if t.chance(1, 12) { (1 << 20) + t.below(1 << 21) } else { 65_000 + t.below(80_000) };
+    // one case in 40: two payloads beyond 4 MiB, the bigger one first (the buffer is then longer than the second element needs)
+    let two_huge = t.chance(1, 40);
+    let big_len = if two_huge { (5 << 20) + t.below(1 << 20) } else if t.chance(1, 12) { (1 << 20) + t.below(1 << 21) } else { 65_000 + t.below(80_000) };
     let blob = Node::leaf(0xa3, Payload::B(t.filler(big_len)));
+    let bigger = if two_huge {
+        let n = big_len + (1 << 20) + t.below(1 << 19);
+        Some(Node::leaf(0xa3, Payload::B(t.filler(n))))
+    } else {
+        None
+    };
     let small = |t: &mut Tape| {
         let n = 1 + t.below(40);
         Node::leaf(0xa3, Payload::B(t.filler(n)))
@@ -322,6 +330,10 @@ fn stage_big(i: &Input, c: &mut Case) -> Result<(), String> {
     let mut group = vec![Node::leaf(0xe7, Payload::U(t.below(1000) as u64))];
     if t.chance(1, 2) {
         group.push(small(&mut t));
+    }
+    if let Some(b) = bigger {
+        group.push(b);
+        c.label("two_payloads_beyond_4MiB_bigger_first");
     }
     group.push(blob);
     if t.chance(1, 2) {
